@@ -231,6 +231,38 @@ def bits_of(i, n):
 
 
 def run_dq(ops_list, order, inputs):
+    """default.qubit semantics of `ops_list` on the given basis inputs: the device's own preprocessing
+    (decomposition to its native gate set, dynamic-wire resolution) is run once, then the device's gate
+    kernels (pennylane.devices.qubit.apply_operation) are applied to the batch of all basis inputs."""
+    from pennylane.devices.qubit import apply_operation
+    n = len(order)
+    prog = DEV.preprocess_transforms()
+    batch, _ = prog([QuantumScript(list(ops_list), [qp.state()])])
+    tape = batch[0]
+    extra = [w for w in tape.wires if w not in set(order)]
+    allw = list(order) + extra
+    nt = len(allw)
+    if nt > 16:
+        raise RuntimeError("too many wires")
+    if any(o.name in ("MidMeasureMP", "MidMeasure", "Conditional") for o in tape.operations):
+        return run_dq_slow(ops_list, order, inputs)
+    wmap = {w: i for i, w in enumerate(allw)}
+    native = [o.map_wires(wmap) for o in tape.operations]
+    st = np.zeros((len(inputs),) + (2,) * nt, dtype=complex)
+    for b, i in enumerate(inputs):
+        st[(b,) + tuple(bits_of(i, n)) + (0,) * (nt - n)] = 1.0
+    for o in native:
+        st = apply_operation(o, st, is_state_batched=True)
+    pr = np.abs(np.asarray(st).reshape(len(inputs), -1)) ** 2
+    out = []
+    for row in pr:
+        j = int(np.argmax(row))
+        ok = abs(row[j] - 1.0) <= TOL and (np.sum(row) - row[j]) <= TOL and (j % (1 << (nt - n))) == 0
+        out.append((j >> (nt - n)) if ok else -1)
+    return out
+
+
+def run_dq_slow(ops_list, order, inputs):
     n = len(order)
     tapes = [QuantumScript([qp.BasisState(np.array(bits_of(i, n)), wires=order)] + list(ops_list),
                            [qp.probs(wires=order)]) for i in inputs]
